@@ -934,11 +934,16 @@ func (p *Parser) matched(lpos Pos, left, right token) Pos {
 func (p *Parser) errPass(err error) {
 	if p.err == nil {
 		p.err = err
-		p.bsp = uint(len(p.bs)) + 1
-		p.r = runeEOF
-		p.w = 1
-		p.tok = _EOF
+	} else if p.r == runeEOF && p.tok == _EOF {
+		return
 	}
+	// Note that we stop even if an earlier error was recorded without
+	// stopping, like a read error; otherwise callers relying on an error
+	// to end their loops would spin forever.
+	p.bsp = uint(len(p.bs)) + 1
+	p.r = runeEOF
+	p.w = 1
+	p.tok = _EOF
 }
 
 // IsIncomplete reports whether a Parser error could have been avoided with
